@@ -1,7 +1,8 @@
 SPECIFICATION Spec
 CONSTANT MaxCall = 1
-CONSTANT MaxNest = 1
+CONSTANT MaxNest = 0
 CONSTANT Rich = FALSE
+CONSTANT FaultSel = "all"
 INVARIANT TypeOK
 INVARIANT WellFormed
 INVARIANT Emit
